@@ -19,7 +19,7 @@ BUDGET = {"quick": dict(examples=500, workers=12, seconds=75), "thorough": dict(
 @st.composite
 def cases(draw, tier):
     big = tier == "thorough"
-    shape = draw(st.sampled_from(["ties", "ties", "ties", "any", "any", "n100", "n100", "many", "many_mixed"]))
+    shape = draw(st.sampled_from(["ties", "ties", "ties", "shifts", "shifts", "any", "any", "n100", "n100", "many", "many_mixed"]))
     k, alpha = draw(gen.alphabets())
     if shape == "ties":
         # equal lengths: substitutions only + duplicates under different names
@@ -40,6 +40,11 @@ def cases(draw, tier):
                 seqs.append("".join(rnd.choice(alpha) if rnd.random() < 0.2 else c for c in anc))
     elif shape == "many":
         seqs = gen.expand_random(draw(st.integers(0, 2 ** 32 - 1)), alpha, draw(st.sampled_from([511, 512, 513, 1024, 1025])), 2, draw(st.integers(2, 6)))
+    elif shape == "shifts":
+        # equal lengths again, but the members differ by shifts (a deletion paired with an insertion elsewhere): asymmetric
+        # pairwise distances, co-optimal alignments - only the names may break such ties
+        from props.c16 import tie_family
+        seqs = tie_family(draw(st.integers(0, 2 ** 32 - 1)), alpha[:4] if k == "dna" else alpha[:20], draw(st.integers(3, 12)), draw(st.integers(20, 80)))
     elif shape == "many_mixed":
         # more records than the readers' 512-entry increments, of mixed composition: most records consist of A, C, G, T only,
         # the others of protein-only letters, so that the set as a whole is protein by the 1/4 rule while long runs of
